@@ -277,6 +277,40 @@ class _FileProxy:
         self._real.close()
 
 
+def _proxy_del(self) -> None:  # noqa: ANN001
+    """A writable file that is dropped without close(): CPython's finaliser flushes and closes it and
+    SWALLOWS any error.  We model that: the implicit close is an event and a fault point; an error
+    planned for this close loses the buffered tail silently (nothing is raised)."""
+    try:
+        if self._closed_logged or not STATE["active"]:
+            return
+        object.__setattr__(self, "_closed_logged", True)
+        ev = _next_event(
+            "close", self._rel, file=self._index, nbytes=self._nbytes, sha=self._sha.hexdigest(), mode=self._mode, implicit=True,
+        )
+        f = _match_fault(ev)
+        if f is not None:
+            ev["fault"] = f["kind"]
+        _emit(ev)
+        if f is None:
+            return
+        if f["kind"] == "crash":
+            _die()
+        # the error surfaces inside the finaliser: the data still buffered in user space never reaches the disk
+        real = self._real
+        real.flush()
+        size = os.fstat(real.fileno()).st_size
+        lost = min(size, 4096) if size else 0
+        if lost:
+            os.ftruncate(real.fileno(), size - max(1, lost // 2))
+        real.close()
+    except BaseException:  # noqa: BLE001
+        pass
+
+
+_FileProxy.__del__ = _proxy_del  # type: ignore[attr-defined]
+
+
 def _is_write_mode(mode: str) -> bool:
     return any(c in mode for c in "wax+")
 
@@ -440,6 +474,37 @@ def install_seams() -> None:
     time.time = _fake_time  # type: ignore[assignment]
 
 
+class VsimLivelock(BaseException):
+    """Raised by the livelock probe: the docstring parser's load-retry loop reached a fix-point."""
+
+
+def install_livelock_probe() -> str:
+    """DocstringParser.__init__ retries `load(path)` with path.parent on KeyError; at '/' that loop never
+    exits.  Two consecutive load calls with the same first argument are a livelock."""
+    try:
+        import safeds_stubgen.docstring_parsing._docstring_parser as dp
+    except Exception:  # noqa: BLE001
+        return "unavailable"
+    real = getattr(dp, "load", None)
+    if real is None or not callable(real):
+        return "unavailable"
+    last = {"arg": None, "n": 0}
+
+    def load_probe(*args, **kwargs):  # noqa: ANN002, ANN003, ANN202
+        key = str(args[0]) if args else str(kwargs.get("objspec"))
+        if STATE["active"]:
+            if key == last["arg"]:
+                last["n"] += 1
+                if last["n"] >= 3:
+                    raise VsimLivelock(f"load() retried {last['n']} times with the same argument {key!r}")
+            else:
+                last["arg"], last["n"] = key, 0
+        return real(*args, **kwargs)
+
+    dp.load = load_probe
+    return "installed"
+
+
 def install_module_hash_seam() -> bool:
     """Replace the identity hash of safeds_stubgen's Module objects by a seeded per-object value."""
     try:
@@ -489,14 +554,17 @@ def _exc_info(exc: BaseException, repo_src: str) -> dict:
     chain = []
     seen = set()
     cur: BaseException | None = exc
+    via = "self"
     while cur is not None and id(cur) not in seen:
         seen.add(id(cur))
         chain.append(
             {
                 "type": type(cur).__name__,
                 "injected": any(cur is e for e in STATE["injected_errors"]),
+                "via": via,
             },
         )
+        via = "cause" if cur.__cause__ is not None else "context"
         cur = cur.__cause__ or cur.__context__
     return {
         "type": type(exc).__name__,
@@ -563,6 +631,7 @@ def main() -> int:
             _write_result(res)
             return 3
         res["module_hash_seam"] = install_module_hash_seam()
+        res["livelock_probe"] = install_livelock_probe()
         root_logger = logging.getLogger()
         root_logger.addHandler(_Capture(level=logging.WARNING))
 
@@ -616,7 +685,9 @@ def _run_layer_e() -> dict:
     except BaseException as e:  # noqa: BLE001
         STATE["active"] = False
         info = _exc_info(e, JOB["repo_src"])
-        if isinstance(e, ValueError) and str(e) == "No files found to analyse.":
+        if isinstance(e, VsimLivelock):
+            out["outcome"] = "livelock"
+        elif isinstance(e, ValueError) and str(e) == "No files found to analyse.":
             out["outcome"] = "rejected"
         elif type(e).__name__ == "CompileError" and type(e).__module__.startswith("mypy"):
             out["outcome"] = "not_loadable"
